@@ -126,6 +126,17 @@ CHECKS.update({
         note="Fresh process = fork of the worker before anything of the run is registered."),
 })
 
+CHECKS.update({
+    "C11": dict(
+        level="exploration", design="DESIGN.md section 5 C11",
+        technique="deterministic simulation of the file-system seam (seeded split of the SDL into files, permuted directory enumeration, extensions before definitions) with concurrently cooked / queried engines; oracle = model -> SDL -> engine -> introspection -> model round trip",
+        text="A schema model with every type kind, defaults, deprecations, hidden fields, custom directives and members moved into "
+             "extend definitions of every kind is supplied as string, file, list of files and directory (seeded file split, glob "
+             "order permuted); the engines are cooked and queried concurrently; normalised __schema / __type / __typename answers "
+             "must equal the model and each other.",
+        note="Only directory enumeration order and file boundaries are simulated; file contents are real temporary files. Ordering inside introspection lists is not compared."),
+})
+
 NOT_APPLICABLE = {
     "C10": "pure synchronous functions of one value (scalar coercion laws): no schedule, clock, fault, interleaving or history "
            "for a simulator to control; deciding them is boundary-value enumeration, a different technique (DESIGN.md section 2)",
